@@ -34,9 +34,9 @@ macro "g3split " h:ident " : " t:term : tactic =>
 theorem ps_toNat_inj (a b : PS) : a.toNat = b.toNat ↔ a = b := by
   cases a <;> cases b <;> simp [PS.toNat]
 
-theorem skel_v3_commitRollback (s : Sys) (i : Nat) (t : Tx) (v : View)
+theorem skel_v3_commitRollback (s : Sys) (i : Nat) (t : Tx) (v : View) (x : SkX)
     (hnp : ∀ p, commitRollback s i t v ≠ .panic p) :
-    proj (v3sk_commitRollback (gV3Of i t v.c (getTx s v.c.cIndex).isNone ((getTx s v.c.cIndex).getD default))) =
+    proj (v3sk_commitRollback (gV3Of i t v.c (getTx s v.c.cIndex).isNone ((getTx s v.c.cIndex).getD default) x)) =
       outcomeTrace i v.c (commitRollback s i t v) := by
   revert hnp
   unfold v3sk_commitRollback commitRollback prevBusyRbCommit
